@@ -112,7 +112,23 @@ def run(c):
     c.mc_bg('MC_Nonce', 'MC_Nonce3')
     c.assumptions += ['"compiles when used": harness/cxx/drv_cxxhash.cpp instantiates every documented member and overload of hash, hasha, xof, xofa, xof/xofa_with_output_length<16,32,64> and the helper functions; a compile error against /repo headers is a violation',
                       'the cipher classes are judged against the C functions as the specification computes them (key, nonce tracked by the spec)']
-    # (1) compile every documented member
+    # (1) a two-translation-unit program that names every documented member of the cipher classes through each class's
+    #     own static type and includes every public C++ header twice: it must compile AND link against the library
+    rcb, outb = sh([ROOT + '/tools/build.sh', 'rel+nodrv'], timeout=900)
+    exe = BUILD + '/cxx/use_members'
+    os.makedirs(BUILD + '/cxx', exist_ok=True)
+    cmd2 = 'g++ -std=c++11 -Wall -DHAVE_CONFIG_H -I%s/src -I%s/lib/rel+nodrv %s/harness/cxx/use_members.cpp %s/harness/cxx/use_members2.cpp %s/lib/rel+nodrv/src/libascon_static.a -o %s' % (REPO, BUILD, ROOT, ROOT, BUILD, exe)
+    rc2, out2 = sh(cmd2, timeout=300)
+    c.cov['evaluations'] += 1; c.distinct([('compile', 'use_members')])
+    if rc2 != 0:
+        rd = c.replay_dir('compile_members')
+        with open(rd + '/compile.log', 'w') as f: f.write(out2)
+        with open(rd + '/replay.sh', 'w') as f: f.write('#!/bin/sh\n' + cmd2 + '\n')
+        first = [l for l in out2.split('\n') if 'error' in l or 'multiple definition' in l or 'undefined reference' in l][:3]
+        what = first[0] if first else 'members'
+        c.violation('compile:' + re.sub(r'.*/(src|harness)/', '', what.split(': error')[0])[:80], 'C++ classes do not compile and link when used from two translation units: ' + ' | '.join(first), rd)
+        return          # the conformance drivers include the same headers: nothing more can be built
+    # (1b) every documented member of the header-only classes (its own driver program)
     drv, cmd, out = build_extra('cxx')
     if not drv:
         rd = c.replay_dir('compile_cxx')
@@ -120,19 +136,8 @@ def run(c):
         with open(rd + '/replay.sh', 'w') as f: f.write('#!/bin/sh\n' + cmd.replace('-o ' + BUILD + '/cxx/drv_cxx', '-fsyntax-only') + '\n')
         first = [l for l in out.split('\n') if 'error' in l][:3]
         c.violation('compile:' + (re.sub(r'.*/src/', '', first[0].split(': error')[0]) if first else 'cxx'), 'C++ members do not compile when used: ' + ' | '.join(first), rd)
-    else:
-        c.tv(cxx_plan(c), 'rel', 'cxx', drv=drv, max_cost=20.0)
-    # (1b) the cipher classes' members through each class's own static type
-    build('rel')
-    cmd2 = 'g++ -std=c++11 -fsyntax-only -Wall -DHAVE_CONFIG_H -I%s/src -I%s/lib/rel %s/harness/cxx/use_members.cpp' % (REPO, BUILD, ROOT)
-    rc2, out2 = sh(cmd2, timeout=300)
-    c.cov['evaluations'] += 1; c.distinct([('compile', 'use_members')])
-    if rc2 != 0:
-        rd = c.replay_dir('compile_members')
-        with open(rd + '/compile.log', 'w') as f: f.write(out2)
-        with open(rd + '/replay.sh', 'w') as f: f.write('#!/bin/sh\n' + cmd2 + '\n')
-        first = [l for l in out2.split('\n') if 'error' in l][:3]
-        c.violation('compile:' + (re.sub(r'.*/src/', '', first[0].split(': error')[0]) if first else 'members'), 'cipher class members do not compile when used: ' + ' | '.join(first), rd)
+        return
+    c.tv(cxx_plan(c), 'rel', 'cxx', drv=drv, max_cost=20.0)
     # (2) cipher classes: every construction and keying path
     c.tv(cipher_plan(c), 'rel', 'cipher', max_cost=20.0)
     c.cov['rule'] = 'one case per (class, construction/keying path) followed by encryptions judged against the C-level specification; members of the header-only classes replayed as sponge objects; distinct = (class, path)'
